@@ -6,7 +6,8 @@ import json
 from . import place_common as pc
 
 RULE = ("K: constraint systems from a structured generator (1-8 objects incl. the volume, grids of 1-8 cells per axis, uniform "
-        "(spacings 1, 0.5, 0.1, 2.5e-8) and non-uniform explicit grids; per object and axis a target slice is described through a "
+        "(spacings 1, 0.5, 0.1, 2.5e-8; centre (0,0,0) or shifted: non-zero, pairwise different components of both signs that "
+        "are no multiples of the spacing) and non-uniform explicit grids; per object and axis a target slice is described through a "
         "random mix of partial_grid_shape / partial_real_shape / partial_real_position and the five constraint kinds "
         "(single- and multi-axis, real and index-space margins/offsets, anchors -1/0/1/+-0.5, coordinates with jitter and exact "
         "ties), then perturbed: redundant or conflicting extra coordinates / position constraints / sizes, dropped constraints, "
@@ -43,6 +44,8 @@ def cases_for(ctx, n, rng):
     # positioned later), listed in the adversarial (reverse dependency) order, dependents left to the extension step
     for s in pc.staggered_systems(rng, n_random=ctx.scale(6, 40)):
         out.append((s, {"family": "staggered"}))
+    for s in pc.centred_systems():
+        out.append((s, {"family": "centred"}))
     n += len(out)
     while len(out) < n:
         s, tags = pc.gen_system(rng, big=ctx.thorough and rng.chance(0.3))
